@@ -26,4 +26,39 @@ PROPS = {
             native("c01_queue", t=["secs=60", "lanes=3"], name="tsan", flavour="tsan", tiers=("thorough",)),
         ],
     },
+    "C04": {
+        "level": "exploration",
+        "assumptions": [
+            "the recording stream's log is the ground truth; the log length read after completion can only hide a violation, never invent one (the gated variant makes hidden ones definite)",
+            "liveness is restated as bounded progress in logical units (entries consumed by the stream), not wall time",
+        ],
+        "legs": [
+            native("c04_flush", ["secs=14"], ["secs=170", "m3len=11"]),
+            miri("c04_flush", 12, 48, [0, 1, 2], [0, 1, 2, 3, 4, 5]),
+            native("c04_flush", t=["secs=60", "lanes=3", "monitor=12"], name="tsan", flavour="tsan", tiers=("thorough",)),
+        ],
+    },
+    "C09": {
+        "level": "exploration",
+        "assumptions": [
+            "sequential histories are made deterministic by holding the writer thread at a gate inside next(); the reference is a displace-oldest ring plus one in-hand slot",
+        ],
+        "legs": [
+            native("c09_overflow", ["secs=12"], ["secs=150"]),
+            miri("c09_overflow", 12, 48, [0, 1, 2, 3], [0, 1, 2, 3, 4, 5, 6, 7]),
+            native("c09_overflow", t=["secs=45", "lanes=3"], name="tsan", flavour="tsan", tiers=("thorough",)),
+        ],
+    },
+    "C05": {
+        "level": "exploration",
+        "assumptions": [
+            "Drop of the stream object and exit of the writer thread are observed through a Drop impl and a thread-local destructor registered by the recording stream",
+            "termination on the forget path is decided by the progress watchdog (no meaningful progress for 20 s) together with the logical evidence 'last queue handle dropped, stream alive'",
+        ],
+        "legs": [
+            native("c05_shutdown", ["secs=12"], ["secs=150"]),
+            miri("c05_shutdown", 4, 24, [0, 1, 2, 3, 4, 5], [0, 1, 2, 3, 4, 5, 6, 7, 8, 9, 10, 11]),
+            native("c05_shutdown", t=["secs=45", "lanes=3"], name="tsan", flavour="tsan", tiers=("thorough",)),
+        ],
+    },
 }
